@@ -95,20 +95,35 @@ def contexts (version : Option Nat) (lastAlgIsAesCtr : Bool) (nkeys : Nat) (sel 
   Sys.all.filterMap fun s =>
     (lookupLast sel s).map fun locs => (s, hooksOf version lastAlgIsAesCtr nkeys s locs)
 
-/-- `drm.moov(representation.default_kid).encode()` for a system whose context has a
-`moov` hook.  `kids` = the key ids of `models.Key.get_kids(representation.kids)` in
-dictionary order, `pro` = the bytes of `generate_pro`. -/
-def psshFor (kids : List Bytes) (pro : Bytes) : Sys → Bytes
-  | .clearkey => ClearKey.clearkeyPssh kids
-  | .playready => PlayReady.playreadyPssh kids pro
-  | .marlin => []      -- never used: Marlin has no moov hook
+/-- the fields of one `pssh` box (`ContentProtectionSpecificBox(version, flags=0, …)`) -/
+structure PsshSpec where
+  version : Nat
+  sys : Bytes
+  kids : List Bytes
+  data : Bytes
+  deriving DecidableEq, Repr
+
+/-- the box's bytes -/
+def PsshSpec.bytes (p : PsshSpec) : Bytes := PlayReady.encodePssh p.version p.sys p.kids p.data
+
+/-- `drm.moov(representation.default_kid)` for a system whose context has a `moov` hook.
+`kids` = the key ids of `models.Key.get_kids(representation.kids)` in dictionary order,
+`pro` = the bytes of `generate_pro`.  ClearKey (`ClearKey.generate_pssh`): version 1, every
+key id, no data.  PlayReady (`PlayReady.generate_pssh`): version 0 without key ids for
+fewer than two keys, else version 1 with every key id; data = the PRO.  Marlin: no hook. -/
+def psshFor (kids : List Bytes) (pro : Bytes) : Sys → Option PsshSpec
+  | .clearkey => some ⟨1, ClearKey.psshSystemId, kids, []⟩
+  | .playready =>
+    if kids.length < 2 then some ⟨0, PlayReady.playreadySystemId, [], pro⟩
+    else some ⟨1, PlayReady.playreadySystemId, kids, pro⟩
+  | .marlin => none
 
 /-- the pssh boxes `generate_init_segment` appends (lines 113-119), in order -/
 def initPsshs (encrypted : Bool) (version : Option Nat) (lastAlgIsAesCtr : Bool)
-    (sel : Selection) (kids : List Bytes) (pro : Bytes) : List Bytes :=
+    (sel : Selection) (kids : List Bytes) (pro : Bytes) : List PsshSpec :=
   if !encrypted then [] else
   (contexts version lastAlgIsAesCtr kids.length sel).filterMap fun (s, h) =>
-    if h.moov then some (psshFor kids pro s) else none
+    if h.moov then psshFor kids pro s else none
 
 /-! ### box tree -/
 
@@ -163,21 +178,24 @@ def dropMehd : Box → Box
   | .node t cs => .node t (modifyFirst mvexType dropMehdFrom cs)
   | b => b
 
-/-- a complete `pssh` box (bytes) as an opaque leaf: type = bytes 4..7, payload = the rest -/
-def psshLeaf (box : Bytes) : Box := .leaf ((box.drop 4).take 4) (box.drop 8)
+/-- a `pssh` box as a leaf of the tree: type `pssh`, payload = version/flags … data -/
+def PsshSpec.box (p : PsshSpec) : Box :=
+  .leaf PlayReady.psshType (PlayReady.psshBody p.version p.sys p.kids p.data)
 
-/-- the edits of `generate_init_segment` on the `moov` box -/
-def rewriteMoov (psshs : List Bytes) (live : Bool) (moov : Box) : Box :=
-  let m := appendChildren (psshs.map psshLeaf) moov
+/-- the edits of `generate_init_segment` on the `moov` box: append the boxes, then (live)
+delete `mvex/mehd` -/
+def rewriteMoov (extra : List Box) (live : Bool) (moov : Box) : Box :=
+  let m := appendChildren extra moov
   if live then dropMehd m else m
 
-/-- `generate_init_segment`: top-level boxes of the stored init segment → boxes of the response -/
-def generateInit (top : List Box) (psshs : List Bytes) (live : Bool) : List Box :=
-  modifyFirst moovType (rewriteMoov psshs live) top
+/-- `generate_init_segment`: top-level boxes of the stored init segment → boxes of the
+response (`atom.moov` = the first top-level `moov`) -/
+def generateInit (top : List Box) (extra : List Box) (live : Bool) : List Box :=
+  modifyFirst moovType (rewriteMoov extra live) top
 
-/-- the response body -/
-def initBytes (top : List Box) (psshs : List Bytes) (live : Bool) : Bytes :=
-  encodeList (generateInit top psshs live)
+/-- the response body for a request: selection → pssh boxes → edited tree → bytes -/
+def initBytes (top : List Box) (psshs : List PsshSpec) (live : Bool) : Bytes :=
+  encodeList (generateInit top (psshs.map PsshSpec.box) live)
 
 /-! ### an independent reader of box sequences (ISO/IEC 14496-12 §4.2) -/
 
